@@ -68,3 +68,7 @@ fn flags_parse_any_section_len3() {
     kani::cover!(b[0] < 0x80 && b[1] >= 0x80 && g.contains(MessageFlags::READ_ONLY));
     kani::cover!(g == MessageFlags::new() && b[0] == 0x02);
 }
+
+// Message::decode totality (first byte fixed to a message type, 0..7 further symbolic bytes) was
+// written and dropped: every rung, including the 1-byte input that fails at the first length prefix,
+// exceeded 900 s (the cost is constant: the ReadMessageError / Message types, not the input).
